@@ -3,7 +3,10 @@
 Selectors are generated from an abstract form, so the expected specificity and the expected sequence of simple
 selectors and combinators are known by construction (the oracle is the property statement + the CSS3 selector
 grammar, never the state machine in cssutils/css/selector.py).  Every abstract selector is rendered in several
-spellings (white space, comments, letter case of ':not', of pseudo names and of the an+b argument, quote style).
+spellings (white space, comments, letter case of ':not', of pseudo names and of the an+b argument, quote style, and CSS
+escapes: a backslash before a letter that is no hex digit ("simple" escape, ':n\\ot(') or the code point in hex (':\\6e ot(',
+':no\\000074(') inside ':not' and pseudo-class / pseudo-element / function names - an escaped letter is that letter; type, class,
+id and attribute NAMES are written with hex escapes only; arguments (an+b, odd / even, strings) are never escaped).
 
 abstract selector  = (compound, comb, compound, comb, compound ...)        comb in ' ', '>', '+', '~'
 compound           = (head, (simple, ...))      head = None | ('t', prefix, name) | ('u', prefix)
@@ -119,11 +122,11 @@ def expect(sel):
 class Sigma:
     """a spelling: fillers for the three kinds of gap, letter case of the case-insensitive parts, quote style"""
 
-    def __init__(self, name, ws, cm, desc, case='lower', notcase='lower', quote='"'):
-        self.name, self.ws, self.cm, self.desc, self.case, self.notcase, self.quote = name, ws, cm, desc, case, notcase, quote
+    def __init__(self, name, ws, cm, desc, case='lower', notcase='lower', quote='"', esc=None):
+        self.name, self.ws, self.cm, self.desc, self.case, self.notcase, self.quote, self.esc = name, ws, cm, desc, case, notcase, quote, esc
 
     def with_notcase(self, nc):
-        return Sigma(self.name + '/not-' + nc, self.ws, self.cm, self.desc, self.case, nc, self.quote)
+        return Sigma(self.name + '/not-' + nc, self.ws, self.cm, self.desc, self.case, nc, self.quote, self.esc)
 
 
 def _cased(text, how):
@@ -132,6 +135,45 @@ def _cased(text, how):
     if how == 'mixed':
         return ''.join(ch.upper() if i % 2 == 0 else ch.lower() for i, ch in enumerate(text))
     return text
+
+
+HEXDIGITS = '0123456789abcdefABCDEF'
+
+
+def _esc_kw(word, how, func=False):
+    """a case-insensitive word (not, pseudo-class / pseudo-element / function names) with ONE letter written as a CSS escape:
+    simple-first / simple-last: backslash before the first / last letter that is no hex digit (CSS 2.1 4.1.3: the character itself);
+    hex-first: the first letter as its code point in hex, closed by one space; hex6-last: the last letter as six hex digits, closed by one
+    space (the space belongs to the escape) unless '(' follows directly (func)"""
+    if not how:
+        return word
+    if how.startswith('simple'):
+        idx = [i for i, ch in enumerate(word) if ch.isalpha() and ch not in HEXDIGITS]
+        if not idx:
+            return word
+        i = idx[0] if how == 'simple-first' else idx[-1]
+        return word[:i] + '\\' + word[i:]
+    idx = [i for i, ch in enumerate(word) if ch.isalpha()]
+    if how == 'hex-first':
+        i = idx[0]
+        return word[:i] + '\\%x ' % ord(word[i]) + word[i + 1:]
+    if how == 'hex6-last':
+        i = idx[-1]
+        return word[:i] + '\\%06x' % ord(word[i]) + ('' if func and i == len(word) - 1 else ' ') + word[i + 1:]
+    raise ValueError(how)
+
+
+def _esc_name(name, how):
+    """a case-SENSITIVE name (type, class, id, attribute) in an escaping spelling: its first (hex-first, short form) / last (hex6-last, six
+    digits) letter as a hex escape closed by one space - the tokenizer resolves these, so the name held is the plain one; simple escapes
+    in names are outside the bound"""
+    if how not in ('hex-first', 'hex6-last'):
+        return name
+    idx = [i for i, ch in enumerate(name) if ch.isalpha()]
+    if not idx:
+        return name
+    i = idx[0] if how == 'hex-first' else idx[-1]
+    return name[:i] + ('\\%x ' if how == 'hex-first' else '\\%06x ') % ord(name[i]) + name[i + 1:]
 
 
 SIGMAS = [
@@ -145,9 +187,18 @@ SIGMAS = [
     Sigma('upper-comments', ['/*c*/'], ['/*c*/'], [' /*c*/ '], case='upper', notcase='lower'),
     # white space after a comment inside parentheses / brackets
     Sigma('comment-then-ws', ['/*c*/ '], [''], [' ']),
+    # CSS escapes inside the case-insensitive words (and, in hex form, inside names)
+    Sigma('esc-simple-first', [''], [''], [' '], esc='simple-first'),
+    Sigma('esc-simple-last-upper', [' '], [''], [' '], case='upper', notcase='upper', esc='simple-last'),
+    Sigma('esc-hex-first', [''], [''], [' '], esc='hex-first'),
+    Sigma('esc-hex6-last-mixed', [''], ['/*c*/'], ['  '], case='mixed', notcase='mixed', esc='hex6-last', quote="'"),
 ]
 SIGMA_BY_NAME = {s.name: s for s in SIGMAS}
-ATTACH_SIGMAS = ('minimal', 'comments', 'upper', 'exotic-ws')  # spellings that are also attached to a sheet
+ESC_BOUND = ('CSS escapes: 4 of the spellings write ONE letter of every case-insensitive word (not, pseudo-class, pseudo-element and function names) as an escape - backslash before its first / last '
+             'letter that is no hex digit, short hex escape + space for its first letter, six-digit hex escape for its last letter (combined with upper / mixed case) - and, in the two hex spellings, one letter of '
+             'every type, class, id and attribute name; simple escapes in names, escapes in arguments (an+b, odd / even, strings, attribute values) and in namespace prefixes are outside the bound')
+ATTACH_PLAIN = ('minimal', 'comments', 'upper', 'exotic-ws')  # spellings that are also attached to a sheet (single compounds)
+ATTACH_SIGMAS = ATTACH_PLAIN + ('esc-simple-first',)              # ... for selectors of two compounds
 
 
 def render(sel, sg):
@@ -161,23 +212,26 @@ def render(sel, sg):
         counters[kind] += 1
         out.append(v)
 
+    def kw(word, how, func=False):
+        return _esc_kw(_cased(word, how), sg.esc, func)
+
     def head_text(h):
         pre = '' if h[1] is None else h[1] + '|'
-        return pre + (h[2] if h[0] == 't' else '*')
+        return pre + (_esc_name(h[2], sg.esc) if h[0] == 't' else '*')
 
     def simple(s):
         k = s[0]
         if k in ('t', 'u'):
             out.append(head_text(s))
         elif k == 'id':
-            out.append('#' + s[1])
+            out.append('#' + _esc_name(s[1], sg.esc))
         elif k == 'cls':
-            out.append('.' + s[1])
+            out.append('.' + _esc_name(s[1], sg.esc))
         elif k == 'attr':
             _, prefix, name, op, val, quoted = s
             out.append('[')
             gap('ws')
-            out.append(('' if prefix is None else prefix + '|') + name)
+            out.append(('' if prefix is None else prefix + '|') + _esc_name(name, sg.esc))
             gap('ws')
             if op:
                 out.append(op)
@@ -186,17 +240,17 @@ def render(sel, sg):
                 gap('ws')
             out.append(']')
         elif k == 'pc':
-            out.append(':' + _cased(s[1], sg.case))
+            out.append(':' + kw(s[1], sg.case))
         elif k == 'pe':
-            out.append(':' * s[2] + _cased(s[1], sg.case))
+            out.append(':' * s[2] + kw(s[1], sg.case))
         elif k == 'pef':
-            out.append('::' + _cased(s[1], sg.case) + '(')
+            out.append('::' + kw(s[1], sg.case, True) + '(')
             gap('ws')
             out.append(s[2])
             gap('ws')
             out.append(')')
         elif k == 'pcf':
-            out.append(':' + _cased(s[1], sg.case) + '(')
+            out.append(':' + kw(s[1], sg.case, True) + '(')
             gap('ws')
             arg = s[2]
             if arg[0] == 'anb':
@@ -216,7 +270,7 @@ def render(sel, sg):
             gap('ws')
             out.append(')')
         elif k == 'not':
-            out.append(':' + _cased('not', sg.notcase) + '(')
+            out.append(':' + kw('not', sg.notcase, True) + '(')
             gap('ws')
             simple(s[1])
             gap('ws')
@@ -538,7 +592,7 @@ def run_case(case):
     for nm in sigma_names:
         sg = SIGMA_BY_NAME[nm]
         n += 1
-        text, fails = examine(sel, sg, attach and nm in ATTACH_SIGMAS)
+        text, fails = examine(sel, sg, nm in (ATTACH_SIGMAS if attach is True else (attach or ())))      # attach: True (ATTACH_SIGMAS) | tuple of spelling names | False
         for clause, detail, _obs in fails:
             res.append((clause, detail, {'abstract': repr(sel), 'sigma': nm, 'text': text}, None))
     return n, res
@@ -618,7 +672,7 @@ def compounds(ctx):
                 simples = tuple(x for x in (s, pe) if x is not None)
                 if head is None and not simples:
                     continue
-                cases.append((((head, simples),), all_sigmas, True))
+                cases.append((((head, simples),), all_sigmas, ATTACH_PLAIN))
                 kinds.add(kind_of(head, simples))
     # length 2: all ordered pairs
     heads2 = HEADS if ctx.tier == 'thorough' else [None, ('t', None, 'a'), ('u', None), ('t', 'p', 'a')]
@@ -640,9 +694,11 @@ def compounds(ctx):
                         'rule': f'every compound selector = head ({len(HEADS)} forms: none, type, universal, each namespace prefix form) + ordered sequence of <= 2 simple selectors from a pool of '
                                 f'{len(pool)} (id, class, attribute with every operator quoted/unquoted/namespaced and with values that look like counted tokens, 4 pseudo-classes, nth-*() with {len(ANB_ARGS)} an+b arguments, :lang(), '
                                 f':not() over 14 argument kinds) + optional pseudo-element ({len(PES)} forms: one-/two-colon names and the functional ::part(label), ::cue(v), ::slotted(a)); rendered in {len(SIGMAS)} spellings '
-                                '(length <= 1: all spellings, four of them also attached to a sheet three ways; length 2: one spelling per case rotating in the quick tier, all in the thorough tier); '
+                                f'(length <= 1: all spellings, {len(ATTACH_PLAIN)} of them also attached to a sheet three ways; length 2: one spelling per case rotating in the quick tier, all in the thorough tier); '
+                                + ESC_BOUND + '; '
                                 'each evaluation = parse, specificity, projected structure, round trip, an+b characters kept in the output; distinct = (head form, kinds of the simple selectors)',
-                        'samples': [{'abstract': repr(cases[7][0]), 'text': render(cases[7][0], SIGMAS[3])}], 'bound': 'compounds of <= 2 simple selectors (+ pseudo-element)'})
+                        'samples': [{'abstract': repr(cases[7][0]), 'text': render(cases[7][0], SIGMAS[3])}, {'text': render(cases[-1][0], SIGMA_BY_NAME['esc-simple-first'])}],
+                        'bound': 'compounds of <= 2 simple selectors (+ pseudo-element); ' + ESC_BOUND})
 
 
 def complex_pool():
@@ -702,9 +758,9 @@ def complexes(ctx):
     ctx.bounded.append({'name': 'C16 complex selectors', 'evaluations': n, 'distinct_nontrivial': len(kinds), 'exhaustive': True,
                         'rule': f'all selectors of 2 and 3 compounds from a pool of {len(pool)} compounds (one per counting context: type, universal, id, class, attribute, pseudo-class, '
                                 'functional pseudo-class, :not() of class/type/attribute/id/pseudo-class/universal before and after other simple selectors, namespaced type) x every '
-                                f'combinator; 2 compounds: all {len(SIGMAS)} spellings, with/without a final pseudo-element, attached to a sheet; 3 compounds: one rotating spelling per case (quick) / all (thorough); '
+                                f'combinator; 2 compounds: all {len(SIGMAS)} spellings, with/without a final pseudo-element, {len(ATTACH_SIGMAS)} spellings (one with escapes) attached to a sheet; 3 compounds: one rotating spelling per case (quick) / all (thorough); '
                                 'thorough adds 4 compounds over 6; distinct = (compound indices, combinators)',
-                        'samples': [{'text': render(cases[-1][0], SIGMAS[4])}], 'bound': '<= 3 compounds (quick), <= 4 (thorough)'})
+                        'samples': [{'text': render(cases[-1][0], SIGMAS[4])}], 'bound': '<= 3 compounds (quick), <= 4 (thorough); ' + ESC_BOUND})
 
 
 # ----------------------------------------------------------------------------- selector lists
@@ -891,6 +947,14 @@ def _hist_ops():
         ops.append(('append', k))
     ops.append(('append-obj', 'A'))
     ops.append(('append-obj', 'C2'))
+    # argument forms of appendSelector / append: the pair (text, namespaces), the alias append(), and a Selector OBJECT that is a member of
+    # this very list already (sl[i], the last one included): "appending a selector that is already present moves it to the end"
+    ops.append(('append-pair', 'A'))
+    ops.append(('append-pair', 'C3'))
+    ops.append(('append-alias', 'D'))
+    for i in (0, 1, 2):
+        ops.append(('append-member', i))
+    ops.append(('append-alias-member', 0))
     ops.append(('append-bad', 'a >'))
     ops.append(('append-bad', 'a, b'))
     ops.append(('append-bad', 'q|a'))
@@ -927,7 +991,7 @@ def _hist_worker(job):
                 for step, oi in enumerate(seq):
                     op = ops[oi]
                     kind = op[0]
-                    if kind in ('set', 'set-bad') and op[1] >= len(model):
+                    if kind in ('set', 'set-bad', 'append-member', 'append-alias-member') and op[1] >= len(model):
                         ok = False
                         break
                     if kind == 'del' and not model:
@@ -947,6 +1011,23 @@ def _hist_worker(job):
                             obj = Selector(texts[op[1]])
                             ret = sl.appendSelector(obj)
                             want = [m for m in model if m != canon[op[1]]] + [canon[op[1]]]
+                        elif kind == 'append-pair':
+                            ret = sl.appendSelector((texts[op[1]], dict(NS)))
+                            want = [m for m in model if m != canon[op[1]]] + [canon[op[1]]]
+                        elif kind == 'append-alias':
+                            sl.append(texts[op[1]])
+                            want = [m for m in model if m != canon[op[1]]] + [canon[op[1]]]
+                            ret = sl[sl.length - 1] if sl.length else None      # append() returns nothing
+                        elif kind in ('append-member', 'append-alias-member'):
+                            obj = sl[op[1]]
+                            want = [m for m in model if m != model[op[1]]] + [model[op[1]]]      # (item assignment may have left the text twice)
+                            if kind == 'append-member':
+                                ret = sl.appendSelector(obj)
+                            else:
+                                sl.append(obj)
+                                ret = sl[sl.length - 1] if sl.length else None
+                            if ret is not obj:
+                                viol.append((WHAT_A, f'history {hist["ops"]!r}: appending the member object sl[{op[1]}] did not put that object at the end', hist))
                         elif kind == 'append-bad':
                             ret = sl.appendSelector(op[1])
                         elif kind == 'set':
@@ -1016,7 +1097,8 @@ def list_histories(ctx):
         for what, detail, inputs in viol:
             ctx.violation(what, detail, True, inputs)
     ctx.bounded.append({'name': 'C16 list histories', 'evaluations': n, 'distinct_nontrivial': len(kinds), 'exhaustive': True,
-                        'rule': f'all sequences of <= {kmax} operations from a pool of {len(ops)} (appendSelector of 4 selectors, one of them in three spellings, as text and as Selector object; '
+                        'rule': f'all sequences of <= {kmax} operations from a pool of {len(ops)} (appendSelector of 4 selectors, one of them in three spellings, as text, as pair (text, namespaces), '
+                                'as a new Selector object and as a Selector object that is already a member of the list (sl[0], sl[1], sl[2]); the alias append() with a text and with a member; '
                                 'invalid / comma-containing / undeclared-prefix appends; sl[i] = valid/invalid for i < 3; selectorText = valid/invalid list; del sl[0]) on the list "a, #i", in raising '
                                 'and in log mode, against a Python list of serialised texts; distinct = sequence of operation kinds',
                         'samples': [{'ops': ['append a>b', 'append a > b'], 'expected': ['a', '#i', 'a > b']}], 'bound': f'histories of <= {kmax} operations'})
